@@ -214,6 +214,7 @@ func runC04(r *Run, replay *Case) {
 		}
 		if replay.Input["loopedelse"] != nil {
 			c04LoopedElse(r)
+			c04InstancePrivacy(r)
 			return
 		}
 		for _, cl := range colls {
@@ -250,6 +251,7 @@ func runC04(r *Run, replay *Case) {
 		}
 	}
 	c04LoopedElse(r)
+	c04InstancePrivacy(r)
 	// nested loops with shadowing: the outer loop variable (and index) shadow keys of the root data and are read INSIDE the inner loop, one
 	// scope further in; the inner loop shadows the outer one in turn; after both loops the root values are back
 	for _, root := range []string{"map", "struct"} {
